@@ -6,7 +6,7 @@
    model refuses (trace inclusion).  The global monitors transcribe C02/C03/C04 on the observed
    execution, without any model state. *)
 From Coq Require Import List NArith Arith Bool.
-From Charon Require Import Common.Quorum Qbft.Model.
+From Charon Require Import Common.Quorum Qbft.Model Qbft.Monitor.
 Import ListNotations.
 
 Record case := mkcase {
@@ -40,9 +40,6 @@ Definition rejects (c : case) : list (nat * (nat * nat)) :=
                      end) (pids (c_trace c)).
 
 (* ---- monitors over the observed global trace ---- *)
-
-Definition decides_of (outs : list output) : list (N * nat * list bmsg) :=
-  flat_map (fun o => match o with Decide v r qc => [(v, r, qc)] | _ => [] end) outs.
 
 Definition all_decides (t : list (nat * label)) : list (nat * (N * nat * list bmsg)) :=
   flat_map (fun e => map (fun d => (fst e, d)) (decides_of (label_outs (snd e)))) t.
@@ -103,7 +100,16 @@ Definition post_decision_bcasts (i : nat) (t : list (nat * label)) : nat :=
         + go r (dec || match decides_of outs with [] => false | _ => true end)
     end in go (proj i t) false.
 
+(* the single-process monitor of C03 (Qbft/Monitor.v; proved for every model trace in ModelFacts.v) evaluated
+   directly on the observed label sequence of every process: (case, (process, index of the violating label)) *)
+Definition mon3_bad (c : case) : list (nat * (nat * nat)) :=
+  flat_map (fun i => match mon3_first_violation (case_params c i) g3_init (proj i (c_trace c)) 0 with
+                     | Some k => [(c_id c, (i, k))]
+                     | None => []
+                     end) (pids (c_trace c)).
+
 (* ---- whole case files ---- *)
+Definition all_mon3 (cs : list case) : list (nat * (nat * nat)) := flat_map mon3_bad cs.
 
 Definition all_rejects (cs : list case) : list (nat * (nat * nat)) := flat_map rejects cs.
 Definition all_c02 (cs : list case) : list nat :=
